@@ -478,7 +478,7 @@ def r41(ctx: Ctx) -> RuleReport:
 # R19: parser (abstractly interpreted at token-kind level) == reference recogniser
 # ---------------------------------------------------------------------------------------------
 def _r19_bounds(ctx: Ctx):
-    return (7, 3) if ctx.tier == 'thorough' else (4, 2)
+    return (8, 3) if ctx.tier == 'thorough' else (5, 2)
 
 
 @rule('R19', 'parse / iterparse accept exactly the documented language and report errors at the documented position (token-kind level)')
